@@ -3,7 +3,7 @@
    every operation as a list of integers (compared exactly with the
    implementation's state). Model file. *)
 From Coq Require Import QArith Qminmax List Bool Arith ZArith.
-From WSI Require Import Vqip Pow Enc Tank Arc QTank Distrib Kinds TimeArea Boundary Net.
+From WSI Require Import Vqip Pow Enc Tank Arc QTank Distrib Kinds TimeArea Leak Boundary Net.
 Import ListNotations.
 Open Scope Q_scope.
 
@@ -268,6 +268,27 @@ Fixpoint run_qnode (L maxiter : nat) (kd : qkind) (n : nqnode) (ops : list qnop)
       match qnode_step maxiter kd n o with
       | None => [(-999)%Z]
       | Some (n', out) => out ++ enc_qnode L n' ++ run_qnode L maxiter kd n' r
+      end
+  end.
+
+(* ---------------- Distribution with leakage (Leak.v) ---------------- *)
+Inductive dop := DPullSet (q : Q) | DPullCheck (ov : option Q) | DOverride (l : Q) | DEnd.
+Definition ndnode := dnode (nb * nb).
+Definition enc_dnode (n : ndnode) : list Z := enc_star (dn_ins _ n) ++ enc_star (dn_outs _ n).
+Definition dnode_step (maxiter : nat) (n : ndnode) (o : dop) : option (ndnode * list Z) :=
+  match o with
+  | DPullSet q => match dn_pull_set _ nbport maxiter n q with None => None | Some (n', r) => Some (n', ev r) end
+  | DPullCheck ov => Some (n, ev (dn_pull_check _ nbport n ov))
+  | DOverride l => Some (dn_override _ n l, [])
+  | DEnd => Some (mkDN _ (end_star (dn_ins _ n)) (end_star (dn_outs _ n)) (dn_leak _ n), [])
+  end.
+Fixpoint run_dnode (maxiter : nat) (n : ndnode) (ops : list dop) : list Z :=
+  match ops with
+  | [] => []
+  | o :: r =>
+      match dnode_step maxiter n o with
+      | None => [(-999)%Z]
+      | Some (n', out) => out ++ enc_dnode n' ++ run_dnode maxiter n' r
       end
   end.
 
